@@ -249,8 +249,22 @@ def run(chk):
     chk.rule("C08.propagate", "who gets written in which presence pattern; informed / trusted terminals untouched")
     chk.rule("C08.time", "written states carry the newest contributing read time")
     chk.rule("C08.ratio", "tooth-count constructor")
+    chk.rule("C08.reads", "terminal links stay a symmetric matching under connect/disconnect (table shared with C09)")
     sim = S.Sim(prog)
     check_all(chk, prog, sim)
+    # link structure relied upon (connect keeps the terminals a symmetric matching): the inductive step is C09's table, evaluated here too
+    import rules.C09 as C09
+    import report
+    key = "links:matching-preserved-by-connect"
+    chk.obligation(key, "connect/disconnect keep terminal links a symmetric matching (shared with C09)")
+    sub = report.Check("C08", chk.tier)
+    C09.check_links(sub, prog, sim)
+    chk.evaluations += sub.evaluations
+    bad = [v for v in sub.violations]
+    for v in bad:
+        chk.violation("C08.reads" if v["rule"].startswith("C09") else v["rule"], "links:" + v["key"], "the states a device reads at its terminals are its own and its CURRENT partners': after re-wiring, a stale link keeps averaging in a terminal that is no longer connected: " + v["what"], **v["detail"])
+    if not bad:
+        chk.discharge(key)
     chk.assume("real-arithmetic model (f32 rounding not decided)", "terminals do not follow getters", "axle arity bounded (N<=3 quick, <=4 thorough)",
                "multi-round sequences: each round is the same function of the reads, so the per-round result is what is decided")
     chk.extra["std_models"] = sorted(sim.stats["models_used"])
